@@ -435,11 +435,11 @@ Lemma decimal_checks_ok parsed kv ty :
   jget "logicalType" parsed = Some (JStr "decimal") -> decimal_checks parsed kv ty = POk tt ->
   let scale := attr_or_null "scale" parsed in
   let precision := attr_or_null "precision" parsed in
-  (truthy scale = true -> exists s, as_pyint scale = Some s /\ 0 <= s) /\
-  (truthy precision = true -> exists p, as_pyint precision = Some p /\ 0 < p /\
+  (present scale = true -> exists s, as_jint scale = Some s /\ 0 <= s) /\
+  (present precision = true -> exists p, as_jint precision = Some p /\ 0 < p /\
       (ty = JStr "fixed" -> exists sz size, jget "size" kv = Some sz /\ as_pyint sz = Some size /\ p <= max_precision size)) /\
-  (truthy scale = true -> truthy precision = true ->
-     forall s p, as_pyint scale = Some s -> as_pyint precision = Some p -> s <= p).
+  (present scale = true -> present precision = true ->
+     forall s p, as_jint scale = Some s -> as_jint precision = Some p -> s <= p).
 Proof.
   intros L H. unfold decimal_checks in H. rewrite L in H. cbn [String.eqb Ascii.eqb Bool.eqb negb] in H.
   fold (attr_or_null "scale" parsed) in H. fold (attr_or_null "precision" parsed) in H.
@@ -448,9 +448,9 @@ Proof.
   apply pbind_ok in H. destruct H as ([] & H1 & H).
   apply pbind_ok in H. destruct H as ([] & H2 & H3).
   split; [|split].
-  - intros TS. rewrite TS in H1. destruct (as_pyint scale) as [z|]; [|discriminate H1].
+  - intros TS. rewrite TS in H1. destruct (as_jint scale) as [z|]; [|discriminate H1].
     destruct (Z.ltb z 0) eqn:E; [discriminate H1|]. exists z. split; [reflexivity|lia].
-  - intros TP. rewrite TP in H2. destruct (as_pyint precision) as [z|]; [|discriminate H2].
+  - intros TP. rewrite TP in H2. destruct (as_jint precision) as [z|]; [|discriminate H2].
     destruct (Z.leb z 0) eqn:E; [discriminate H2|]. exists z. split; [reflexivity|]. split; [lia|].
     intros ->. cbn [String.eqb Ascii.eqb Bool.eqb] in H2.
     destruct (jget "size" kv) as [sz|]; [|discriminate H2].
@@ -956,8 +956,8 @@ Section Decimal.
   Hypothesis L : jget "logicalType" parsed = Some (JStr "decimal").
 
   Lemma decimal_scale_bad sc :
-    jget "scale" parsed = Some sc -> truthy sc = true ->
-    (as_pyint sc = None \/ exists z, as_pyint sc = Some z /\ z < 0) ->
+    jget "scale" parsed = Some sc -> present sc = true ->
+    (as_jint sc = None \/ exists z, as_jint sc = Some z /\ z < 0) ->
     decimal_checks parsed kv ty = PErrParse.
   Proof.
     intros S T B. unfold decimal_checks. rewrite L, S, T. cbn [String.eqb Ascii.eqb Bool.eqb negb].
@@ -966,18 +966,18 @@ Section Decimal.
   Qed.
 
   Lemma decimal_precision_bad pr :
-    (forall sc, jget "scale" parsed = Some sc -> truthy sc = true -> exists z, as_pyint sc = Some z /\ 0 <= z) ->
-    jget "precision" parsed = Some pr -> truthy pr = true ->
-    (as_pyint pr = None \/ exists z, as_pyint pr = Some z /\ z <= 0) ->
+    (forall sc, jget "scale" parsed = Some sc -> present sc = true -> exists z, as_jint sc = Some z /\ 0 <= z) ->
+    jget "precision" parsed = Some pr -> present pr = true ->
+    (as_jint pr = None \/ exists z, as_jint pr = Some z /\ z <= 0) ->
     decimal_checks parsed kv ty = PErrParse.
   Proof.
     intros SC P T B. unfold decimal_checks. rewrite L, P, T. cbn [String.eqb Ascii.eqb Bool.eqb negb].
-    assert (S1 : (if truthy (match jget "scale" parsed with Some v => v | None => JNull end)
-                  then match as_pyint (match jget "scale" parsed with Some v => v | None => JNull end) with
+    assert (S1 : (if present (match jget "scale" parsed with Some v => v | None => JNull end)
+                  then match as_jint (match jget "scale" parsed with Some v => v | None => JNull end) with
                        | Some z => if Z.ltb z 0 then PErrParse else POk tt | None => PErrParse end
                   else POk tt) = (POk tt : pres unit)).
     { destruct (jget "scale" parsed) as [sc|]; [|reflexivity].
-      destruct (truthy sc) eqn:TS; [|reflexivity].
+      destruct (present sc) eqn:TS; [|reflexivity].
       destruct (SC sc eq_refl TS) as (z & -> & Z). destruct (Z.ltb z 0) eqn:E; [lia|reflexivity]. }
     rewrite S1. cbn [pbind].
     destruct B as [-> | (z & -> & Z)]; [reflexivity|].
@@ -992,7 +992,7 @@ Lemma decimal_precision_too_large parsed kv sz size p :
   decimal_checks parsed kv (JStr "fixed") = PErrParse.
 Proof.
   intros L S P SZ AS M Z. unfold decimal_checks. rewrite L, S, P, SZ, AS.
-  cbn [String.eqb Ascii.eqb Bool.eqb negb truthy as_pyint pbind].
+  cbn [String.eqb Ascii.eqb Bool.eqb negb present is_jnull as_jint as_pyint pbind].
   destruct (Z.eqb p 0) eqn:E0; [lia|]. cbn [negb].
   destruct (Z.leb p 0) eqn:E1; [lia|].
   destruct (Z.ltb (max_precision size) p) eqn:E2; [reflexivity|lia].
@@ -1005,7 +1005,7 @@ Lemma decimal_scale_above_precision parsed kv ty s p :
   decimal_checks parsed kv ty = PErrParse.
 Proof.
   intros L S P Z1 Z2 NF. unfold decimal_checks. rewrite L, S, P.
-  cbn [String.eqb Ascii.eqb Bool.eqb negb truthy as_pyint].
+  cbn [String.eqb Ascii.eqb Bool.eqb negb present is_jnull as_jint as_pyint].
   destruct (Z.eqb s 0) eqn:E0; [lia|]. destruct (Z.eqb p 0) eqn:E1; [lia|]. cbn [negb andb].
   destruct (Z.ltb s 0) eqn:E2; [lia|]. cbn [pbind].
   destruct (Z.leb p 0) eqn:E3; [lia|].
